@@ -257,5 +257,16 @@ func OpenIO(addr string) (*IOStream, error) {
 	return &IOStream{Out: o, In: &InStream{C: o.C}}, nil
 }
 
+// OpenIOLen connects to /io with a POST that declares a body of n bytes (what
+// `curl -d @file` or `curl -T file` send): the shell's whole output is one
+// upload of known length, operator input comes back on the same connection.
+func OpenIOLen(addr string, n int64) (*IOStream, error) {
+	o, err := OpenOutLen(addr, "/io", n)
+	if err != nil {
+		return nil, err
+	}
+	return &IOStream{Out: o, In: &InStream{C: o.C}}, nil
+}
+
 // Close drops the connection.
 func (s *IOStream) Close() { s.Out.Close() }
